@@ -146,7 +146,51 @@ pub fn observe(v: &Value) -> Value {
   let what: Vec<String> = v["what"].as_array().map(|a| a.iter().map(|x| x.as_str().unwrap().to_string()).collect()).unwrap_or_default();
   let want = |w: &str| what.is_empty() || what.iter().any(|x| x == w);
   let r = catch_unwind(AssertUnwindSafe(|| {
-    let src = build(&v["tree"]);
+    let mut src = build(&v["tree"]);
+    // call history before the observations (C10 / C14): names as in jobs/streams.py
+    if let Some(h) = v["history"].as_array() {
+      for op in h {
+        match op.as_str().unwrap_or("") {
+          "map1" => {
+            let _ = src.map(&MapOptions::new(true));
+          }
+          "map0" => {
+            let _ = src.map(&MapOptions::new(false));
+          }
+          "c1f0" => {
+            let _ = stream(&src, true, false);
+          }
+          "c0f0" => {
+            let _ = stream(&src, false, false);
+          }
+          "c1f1" => {
+            let _ = stream(&src, true, true);
+          }
+          "c0f1" => {
+            let _ = stream(&src, false, true);
+          }
+          "source" => {
+            let _ = src.source();
+          }
+          "size" => {
+            let _ = src.size();
+          }
+          "buffer" => {
+            let _ = src.buffer();
+          }
+          "hash" => {
+            use std::hash::{Hash, Hasher};
+            let mut h = std::collections::hash_map::DefaultHasher::new();
+            src.hash(&mut h);
+            let _ = h.finish();
+          }
+          "clone" => {
+            src = src.clone();
+          }
+          _ => {}
+        }
+      }
+    }
     let mut streams = serde_json::Map::new();
     let mut maps = serde_json::Map::new();
     let mut panics = serde_json::Map::new();
@@ -254,9 +298,11 @@ pub fn observe(v: &Value) -> Value {
     if v.get("alt_tree").is_some() && !v["alt_tree"].is_null() {
       let mut v2 = v.clone();
       v2["tree"] = v["alt_tree"].clone();
+      v2.as_object_mut().unwrap().remove("history");
       v2.as_object_mut().unwrap().remove("alt_tree");
       out["alt"] = observe(&v2);
       out["alt_kind"] = v["alt"].clone();
+      out["alt_prop"] = v["alt_prop"].clone();
     }
     out
   }));
